@@ -1,5 +1,5 @@
 import Gallia.Lib.Proto
-import Gallia.Model.Penlog
+import Gallia.Model.PenlogHr
 open Gallia Gallia.Proto Gallia.Penlog
 
 /-
@@ -14,6 +14,20 @@ open Gallia Gallia.Proto Gallia.Penlog
     unesc <hex>                             -> text of a JSON string literal (or `bad`)
     prio <hex>                              -> priority of a raw line
     lvl <n> / tolvl <p>                     -> level mapping
+    logrec <name> <msg> <levelno> <levelname> <Y> <Mo> <D> <H> <Mi> <S> <us> <off|n> <path> <lineno> <func> <tags> <exc|n> <stack|n> <host>
+                                            -> like `rec`, for the record as `QueueHandler.prepare` + `_JSONFormatter.format` make it
+    jsonfmt <same arguments>                -> hex of the JSON object `_JSONFormatter.format` returns (no queue), state unchanged
+    show <i>                                -> stored record i as `parse_json` reads it back (canonical form + printed text)
+    readobj <k> <key> <val> ...             -> `parse_json` on a JSON object given as members
+    iso <Y> <Mo> <D> <H> <Mi> <S> <us> <off|n> / fromiso <str>   -> isoformat / fromisoformat
+    pyint <str> / fromstr <str>             -> int(str) / PenlogPriority.from_str(str)
+    argv <str>*                             -> the plan `hr` derives from an argument vector
+    suffix <path>                           -> decompressor, Path.suffix, Path.name
+    fs clear | fs <path> missing|dir | fs <path> log <pfx> <plain|zst|gz> <file|fifo> | fs <path> raw <hex> <file|fifo>
+    stdin log <pfx> | stdin raw <hex>
+    dec <zst|gz> <hex raw> <hex out|none>   -> what the trusted decompressor returns for these bytes
+    loads <hex body> undecodable|invalid|nonobject|obj <k> <key> <val> ...   -> what json.loads returns for this line body
+    hr <cut|-> <str>*  /  hrv <cut|-> <str>*  -> exit status, exception class, emitted records (fingerprints / canonical)
   text tokens: `s` + comma separated decimal code points; `n` = None; tags: `n` or `t` + `;`-separated texts
 -/
 
@@ -21,6 +35,11 @@ structure St where
   rs : Array Rec := #[]
   fileT : Bs := []
   fileF : Bs := []
+  fs : List (Str × Node) := []
+  stdin : Bs := []
+  ovLoads : List (Bs × LoadRes) := []
+  ovZ : List (Bs × Option Bs) := []
+  ovG : List (Bs × Option Bs) := []
 
 def parseCps (t : String) : Option Str :=
   if t.isEmpty then some [] else (t.splitOn ",").mapM String.toNat?
@@ -52,7 +71,290 @@ def parseMode (m : String) (arg : Nat) : Option Mode :=
   | "head" => some (.head arg)
   | _ => none
 
+
+/-! ### C17 extension: schema, `hr`, containers -/
+
+def showStrTok (s : Str) : String := "s" ++ ",".intercalate (s.map toString)
+
+def parseJValTok (t : String) : Option JVal :=
+  if t == "n" then some .null
+  else if t == "T" then some (.bool true)
+  else if t == "F" then some (.bool false)
+  else if t.startsWith "i" then (t.drop 1).toString.toInt?.map .int
+  else if t.startsWith "f" then (t.drop 1).toString.toInt?.map .flt
+  else if t.startsWith "s" then (parseStrTok t).map .str
+  else if t == "l" then some (.strs [])
+  else if t.startsWith "l" then ((t.drop 1).toString.splitOn ";").mapM parseStrTok |>.map .strs
+  else if t.startsWith "o" then (t.drop 1).toString.toNat?.map .other
+  else none
+
+def showJVal : JVal → String
+  | .null => "n"
+  | .bool true => "T"
+  | .bool false => "F"
+  | .int i => s!"i{i}"
+  | .flt i => s!"f{i}"
+  | .str s => showStrTok s
+  | .strs l => "l" ++ ";".intercalate (l.map showStrTok)
+  | .other k => s!"o{k}"
+
+def showOff : Option Int → String
+  | none => "n"
+  | some o => toString o
+
+def showDT (d : DT) : String :=
+  s!"{d.year}-{d.month}-{d.day}-{d.hour}-{d.minute}-{d.second}-{d.micro}-{showOff d.off}"
+
+def errName : Err → String
+  | .unicode => "UnicodeDecodeError"
+  | .json => "JSONDecodeError"
+  | .key => "KeyError"
+  | .value => "ValueError"
+  | .type => "TypeError"
+  | .index => "IndexError"
+  | .zstd => "ZstdError"
+  | .gzip => "GzipError"
+  | .unmodelled => "unmodelled"
+
+def canonRec (r : PRec) : String :=
+  s!"m={showJVal r.module}|h={showJVal r.host}|d={showJVal r.data}|t={showDT r.datetime}|p={r.priority}|g={showJVal r.tags}|l={showJVal r.line}|k={showJVal r.stacktrace}|no={showJVal r.levelNo}|na={showJVal r.levelName}|fn={showJVal r.funcName}"
+
+def canonShown (x : Shown) : String := canonRec x.1 ++ "|x=" ++ showStrTok x.2
+
+def fingerprint (s : String) : Nat :=
+  s.toList.foldl (fun h c => (h * 1000003 + c.toNat) % 2305843009213693951) 7
+
+def parseDTToks (y mo d h mi sc us off : String) : Option DT :=
+  match y.toNat?, mo.toNat?, d.toNat?, h.toNat?, mi.toNat?, sc.toNat?, us.toNat? with
+  | some y, some mo, some d, some h, some mi, some sc, some us =>
+    let o : Option (Option Int) := if off == "n" then some none else off.toInt?.map some
+    o.map (fun o => { year := y, month := mo, day := d, hour := h, minute := mi, second := sc, micro := us, off := o })
+  | _, _, _, _, _, _, _ => none
+
+def parseLogRec (a : List String) : Option (LogRec × Str) :=
+  match a with
+  | [name, msg, lno, lname, y, mo, d, h, mi, sc, us, off, path, lineno, func, tags, exc, stack, host] =>
+    match parseStrTok name, parseStrTok msg, lno.toNat?, parseStrTok lname, parseDTToks y mo d h mi sc us off,
+          parseStrTok path, lineno.toNat?, parseStrTok func, parseTagsTok tags, parseOptStrTok exc, parseOptStrTok stack,
+          parseStrTok host with
+    | some name, some msg, some levelno, some levelname, some created, some pathname, some lineno, some funcName,
+      some tags, some excText, some stackInfo, some host =>
+      some ({ name, msg, levelno, levelname, created, pathname, lineno, funcName, tags, excText, stackInfo }, host)
+    | _, _, _, _, _, _, _, _, _, _, _, _ => none
+  | _ => none
+
+def parseMembers : Nat → List String → Option (JObj × List String)
+  | 0, rest => some ([], rest)
+  | k + 1, key :: val :: rest =>
+    match parseStrTok key, parseJValTok val, parseMembers k rest with
+    | some ks, some v, some (o, r) => some ((ks, v) :: o, r)
+    | _, _, _ => none
+  | _, _ => none
+
+def parseLoadRes (a : List String) : Option LoadRes :=
+  match a with
+  | ["undecodable"] => some .undecodable
+  | ["invalid"] => some .invalid
+  | ["nonobject"] => some .nonObject
+  | "obj" :: k :: rest =>
+    match k.toNat? with
+    | some k => match parseMembers k rest with
+      | some (o, []) => some (.object o)
+      | _ => none
+    | none => none
+  | _ => none
+
+def magicZ : Bs := [0x28, 0xB5, 0x2F, 0xFD]
+def magicG : Bs := [0x1F, 0x8B]
+
+/-- a stand-in codec satisfying the round-trip contract: the magic number followed by the data -/
+def toyEnc (k : Kind) (x : Bs) : Bs :=
+  match k with
+  | .plain => x
+  | .zst => magicZ ++ x
+  | .gz => magicG ++ x
+
+def toyDec (magic : Bs) (raw : Bs) : Option Bs :=
+  if raw.isEmpty then some [] else if magic.isPrefixOf raw then some (raw.drop magic.length) else none
+
+def envOf (s : St) : Env :=
+  { loads := fun b => match s.ovLoads.lookup b with
+      | some r => r
+      | none => loadsWriter b
+    zstDec := fun raw => match s.ovZ.lookup raw with
+      | some r => r
+      | none => toyDec magicZ raw
+    gzDec := fun raw => match s.ovG.lookup raw with
+      | some r => r
+      | none => toyDec magicG raw }
+
+def fsOf (s : St) (path : Str) : Node := (s.fs.lookup path).getD .missing
+
+def parseKind (t : String) : Option Kind :=
+  match t with
+  | "plain" => some .plain
+  | "zst" => some .zst
+  | "gz" => some .gz
+  | _ => none
+
+def showKind : Kind → String
+  | .plain => "plain"
+  | .zst => "zst"
+  | .gz => "gz"
+
+def hexToBs (h : String) : Option Bs := (parseHex h).map (fun b => b.map (·.toNat))
+
+def showMode : HrMode → String
+  | .forward => "forward"
+  | .reverse => "reverse"
+  | .head => "head"
+  | .tail => "tail"
+
+def showColor : Color → String
+  | .auto => "auto"
+  | .always => "always"
+  | .never => "never"
+
+/-- `hrRun` with the offset table built once per file -/
+def hrRunFast (E : Env) (fs : Str → Node) (stdin : Bs) (argv : List Str) : List Shown × Exit :=
+  match hrPlan argv with
+  | .usage => ([], .code 2)
+  | .help => ([], .code 0)
+  | .plan p => hrFilesW (hrOneFast E p) E fs stdin p.files
+
+def showExit (e : Exit) : String :=
+  match e with
+  | .code n => s!"{n} -"
+  | .raised c => s!"{e.status} {errName c}"
+
+def runHr (s : St) (verbose : Bool) (cut : String) (toks : List String) : String :=
+  match toks.mapM parseStrTok with
+  | none => "bad-op"
+  | some argv =>
+    let r := hrRunFast (envOf s) (fsOf s) s.stdin argv
+    let r := match cut.toNat? with
+      | some k => pipeCut k r
+      | none => r
+    let recs := if verbose then r.1.map canonShown else r.1.map (fun x => toString (fingerprint (canonShown x)))
+    s!"{showExit r.2} {r.1.length} {if recs.isEmpty then "-" else " ".intercalate recs}"
+
+def stepExt (s : St) (ws : List String) : Option (St × String) :=
+  match ws with
+  | "logrec" :: a =>
+    match parseLogRec a with
+    | some (lr, host) =>
+      match formatRec host (queuePrepare lr) with
+      | some r =>
+        let lt := writeLine true r
+        let lf := writeLine false r
+        some ({ s with rs := s.rs.push r, fileT := s.fileT ++ lt, fileF := s.fileF ++ lf }, s!"{hexBs lt} {hexBs lf}")
+      | none => some (s, "bad-level")
+    | none => some (s, "bad-op")
+  | "jsonfmt" :: a =>
+    match parseLogRec a with
+    | some (lr, host) =>
+      match formatRec host lr with
+      | some r => some (s, hexBs (json r))
+      | none => some (s, "bad-level")
+    | none => some (s, "bad-op")
+  | ["show", i] =>
+    match i.toNat? with
+    | some i =>
+      match s.rs[i]? with
+      | some r =>
+        match readObj (recObj r) with
+        | .ok pr => match fmtRec pr with
+          | .ok t => some (s, "ok " ++ canonShown (pr, t))
+          | .error e => some (s, "ok " ++ canonRec pr ++ "|xerr=" ++ errName e)
+        | .error e => some (s, "err " ++ errName e)
+      | none => some (s, "bad-op")
+    | none => some (s, "bad-op")
+  | "readobj" :: k :: rest =>
+    match k.toNat? with
+    | some k =>
+      match parseMembers k rest with
+      | some (o, []) =>
+        match readObj o with
+        | .ok pr => match fmtRec pr with
+          | .ok t => some (s, "ok " ++ canonShown (pr, t))
+          | .error e => some (s, "ok " ++ canonRec pr ++ "|xerr=" ++ errName e)
+        | .error e => some (s, "err " ++ errName e)
+      | _ => some (s, "bad-op")
+    | none => some (s, "bad-op")
+  | ["iso", y, mo, d, h, mi, sc, us, off] =>
+    match parseDTToks y mo d h mi sc us off with
+    | some dt => some (s, showStrTok (isoformat dt))
+    | none => some (s, "bad-op")
+  | ["fromiso", t] =>
+    match parseStrTok t with
+    | some str => match parseIso str with
+      | .ok d => some (s, "ok " ++ showDT d)
+      | .bad => some (s, "bad")
+      | .unmodelled => some (s, "unmodelled")
+    | none => some (s, "bad-op")
+  | ["pyint", t] =>
+    match parseStrTok t with
+    | some str => some (s, match pyInt str with | some i => toString i | none => "none")
+    | none => some (s, "bad-op")
+  | ["fromstr", t] =>
+    match parseStrTok t with
+    | some str => some (s, showOptNat (fromStr str))
+    | none => some (s, "bad-op")
+  | "argv" :: toks =>
+    match toks.mapM parseStrTok with
+    | some argv =>
+      match hrPlan argv with
+      | .usage => some (s, "usage")
+      | .help => some (s, "help")
+      | .plan p =>
+        some (s, s!"plan {showMode p.mode} {p.n} {p.prio} {showColor p.color} {" ".intercalate (p.files.map showStrTok)}")
+    | none => some (s, "bad-op")
+  | ["suffix", t] =>
+    match parseStrTok t with
+    | some path => some (s, s!"{showKind (detect path)} {showStrTok (pySuffix (pyName path))} {showStrTok (pyName path)}")
+    | none => some (s, "bad-op")
+  | ["fs", "clear"] => some ({ s with fs := [], stdin := [], ovLoads := [], ovZ := [], ovG := [] }, "ok")
+  | ["fs", path, "missing"] =>
+    match parseStrTok path with
+    | some p => some ({ s with fs := (p, .missing) :: s.fs }, "ok")
+    | none => some (s, "bad-op")
+  | ["fs", path, "dir"] =>
+    match parseStrTok path with
+    | some p => some ({ s with fs := (p, .dir) :: s.fs }, "ok")
+    | none => some (s, "bad-op")
+  | ["fs", path, "log", pfx, kind, node] =>
+    match parseStrTok path, parseKind kind with
+    | some p, some k =>
+      let raw := toyEnc k (if pfx == "1" then s.fileT else s.fileF)
+      some ({ s with fs := (p, if node == "fifo" then .fifo raw else .file raw) :: s.fs }, "ok")
+    | _, _ => some (s, "bad-op")
+  | ["fs", path, "raw", hex, node] =>
+    match parseStrTok path, hexToBs hex with
+    | some p, some raw => some ({ s with fs := (p, if node == "fifo" then .fifo raw else .file raw) :: s.fs }, "ok")
+    | _, _ => some (s, "bad-op")
+  | ["stdin", "log", pfx] => some ({ s with stdin := if pfx == "1" then s.fileT else s.fileF }, "ok")
+  | ["stdin", "raw", hex] =>
+    match hexToBs hex with
+    | some raw => some ({ s with stdin := raw }, "ok")
+    | none => some (s, "bad-op")
+  | ["dec", kind, hraw, hout] =>
+    match hexToBs hraw, (if hout == "none" then some none else (hexToBs hout).map some) with
+    | some raw, some out =>
+      if kind == "zst" then some ({ s with ovZ := (raw, out) :: s.ovZ }, "ok")
+      else if kind == "gz" then some ({ s with ovG := (raw, out) :: s.ovG }, "ok")
+      else some (s, "bad-op")
+    | _, _ => some (s, "bad-op")
+  | "loads" :: hbody :: rest =>
+    match hexToBs hbody, parseLoadRes rest with
+    | some body, some r => some ({ s with ovLoads := (body, r) :: s.ovLoads }, "ok")
+    | _, _ => some (s, "bad-op")
+  | "hr" :: cut :: toks => some (s, runHr s false cut toks)
+  | "hrv" :: cut :: toks => some (s, runHr s true cut toks)
+  | _ => none
 def step (s : St) (line : String) : St × String :=
+  match stepExt s (words line) with
+  | some r => r
+  | none =>
   match words line with
   | ["reset"] => ({}, "ok")
   | ["rec", mo, ho, da, dt, pr, tg, li, sk, ln, lname, fn] =>
